@@ -116,9 +116,9 @@ theorem loadHeadExact_is_loadHead {U : List Entry} (hU : HashDet U) (hT : TieFre
     (hF : Fetched U L (fetch h)) :
     loadHeadExact acl fetch amount L h ≠ .error .panic ∧
     ∀ r, loadHeadExact acl fetch amount L h = .ok r →
-      ∃ r', loadHead acl fetch amount L h = .ok r' ∧ values r = values r' := by
+      ∃ r', loadHead1 acl fetch amount L h = .ok r' ∧ values r = values r' := by
   obtain ⟨hdiff, hIJ, hndJ, hJid, hI2, hnd2, hv2⟩ := rejoin_values hU hT hM hG hF
-  rw [loadHeadExact_eq, loadHead_eq]
+  rw [loadHeadExact_eq, loadHead1_eq]
   generalize hm : ofList (fetch h) = m at *
   generalize hJ : bumpClock (joinCore L m (ofList (findHeads m)) L.id) = J at *
   rcases joinSize_cases acl.canAppend L m (ofList (findHeads m)) (-1) with ⟨_, e, he, hne⟩ | ⟨_, hj⟩
